@@ -225,6 +225,13 @@ def matrix(ctx, sut):
             inner[keyword] = copy.deepcopy(UNSUPPORTED[keyword])
             if not host and keyword == "if" and rng.random() < 0.5:
                 inner["then"] = {"type": "string"}
+            if idx % 5 == 3:
+                # annotations (also those of later drafts) change nothing: neither what is supported nor what is not
+                note = rng.choice([{"deprecated": True}, {"readOnly": True}, {"writeOnly": True}, {"$comment": "x"},
+                                   {"examples": [1]}, {"deprecated": True, "description": "old"}, {"contentMediaType": "text/plain"}])
+                inner.update(copy.deepcopy(note))
+                host = {**host, **copy.deepcopy(note)}
+                ctx.count("host.with_annotations")
             doc = place(inner, position, rng)
             control = place(dict(host), position, rng)
             if idx % 4 == 1 and isinstance(doc, dict) and isinstance(control, dict):
